@@ -151,6 +151,18 @@ Definition res_map_col (old : list V) (n : nat) (wl : list worker) : option (lis
   then match read_bag writes (length old) n with Some r => Some (old ++ r) | None => None end
   else None.
 
+(** the same when the concurrent iterator had been advanced by [k] elements before [into_par()]:
+    it hands out the original indices [k + i], while the bag was sized -- and is read back -- for
+    the [n] elements that remain ([src/core/map_col.rs]: [offset + idx]) *)
+Definition res_map_col_adv (k : nat) (old : list V) (n : nat) (wl : list worker) : option (list V) :=
+  let writes := flat_map (w_writes (length old + k)) wl in
+  if length writes =? n
+  then match read_bag writes (length old) n with Some r => Some (old ++ r) | None => None end
+  else None.
+
+Lemma res_map_col_adv_0 old n wl : res_map_col_adv 0 old n wl = res_map_col old n wl.
+Proof. unfold res_map_col_adv, res_map_col. rewrite Nat.add_0_r. reflexivity. Qed.
+
 (** ** call logs *)
 (** full terminals evaluate the whole trace of every position they process *)
 Definition w_calls_full (w : worker) : list (nat * V) := flat_map (fun i => calls (pe i)) (seen w).
